@@ -37,8 +37,8 @@ CHECKS = {
     },
     "C06": {
         "level": "fault_enumeration",
-        "technique": "property-based instance generation x exhaustive enumeration of every truncation point",
-        "text": "For each generated instance every strict prefix (all cut positions 0..len-1) is decoded from a read-only, call-counting source; only BufferUnderflow is accepted. Cuts are enumerated completely per instance; instances are sampled per class.",
+        "technique": "property-based instance generation x exhaustive enumeration of every truncation point; request headers enumerated over every real API key",
+        "text": "For each generated instance every strict prefix (all cut positions 0..len-1) is decoded from a read-only, call-counting source; only BufferUnderflow is accepted. Cuts are enumerated completely per instance; instances are sampled per class; request headers are additionally enumerated over every API key of the package x versions x client ids, every cut.",
         "design_ref": "DESIGN.md 2/C06",
         "note": "Encodings capped at 4096 bytes; hang detection by read-call budget (2*len+8), not wall clock.",
     },
